@@ -7,6 +7,7 @@ import (
 
 	"verif/internal/bind"
 	"verif/internal/gen"
+	"verif/internal/mon"
 	"verif/internal/ref"
 	"verif/internal/run"
 )
@@ -31,9 +32,9 @@ func (c01) Assumptions() []string {
 
 func c01Corpus(env run.Env) corpus {
 	if env.Thorough {
-		return newCorpus("C01", gen.Domain{}, 240, 12000000)
+		return newCorpus("C01", gen.Domain{}, 240, 12000000).withGiant(6)
 	}
-	return newCorpus("C01", gen.Domain{}, 24, 20000)
+	return newCorpus("C01", gen.Domain{}, 24, 20000).withGiant(2)
 }
 
 func (c01) Phases(env run.Env) []run.Phase {
@@ -48,6 +49,16 @@ func (c01) Run(c *run.Ctx, phase, idx int) {
 // roundTrip is the C01 oracle; it is shared with the race-build sweep.
 func roundTrip(c *run.Ctx, id string, a *ref.Packet, part string, r *gen.RNG) {
 	T := tname(int(a.Type))
+	if part == "giant" {
+		// one at a time across the workers, with a heap ceiling and a CPU
+		// allowance in proportion to the size
+		release := c.HugeGate(int64(len(a.Payload)))
+		defer release()
+		c.SetHeapBudget(mon.LiveHeap() + 24*int64(len(a.Payload)) + 1<<30)
+		defer c.SetHeapBudget(0)
+		c.Allow(int64(len(a.Payload)) * 2000)
+		c.Count("giant-remaining-length", fmt.Sprint(len(a.Payload)+4), 1)
+	}
 	if r.Chance(1, 4) {
 		noise(r)
 		c.Count("history", "noise-before-build", 1)
